@@ -1012,9 +1012,13 @@ func (e *env) baseLayout() {
 	e.reset()
 	e.setNow(ts("2024-03-15 15:00:00"))
 	e.addFile("cpu", true, dayIdx("2024-03-14 00:00:00"), []row{e.rowAt("2024-03-14 14:00:00", 1)})
-	e.addFile("cpu", false, hourIdx("2024-03-15 09:00:00"), []row{e.rowAt("2024-03-15 09:30:00", 1)})
+	r0930 := e.rowAt("2024-03-15 09:30:00", 1)
+	r0930.c1 += 2 * 3600e6 // event_time 11:30 on a row stored at 09:30
+	e.addFile("cpu", false, hourIdx("2024-03-15 09:00:00"), []row{r0930})
 	e.addFile("cpu", false, hourIdx("2024-03-15 10:00:00"), []row{e.rowAt("2024-03-15 10:00:00", 1), e.rowAt("2024-03-15 10:30:00", 2)})
-	e.addFile("cpu", false, hourIdx("2024-03-15 11:00:00"), []row{e.rowAt("2024-03-15 11:00:00", 1)})
+	r1100 := e.rowAt("2024-03-15 11:00:00", 1)
+	r1100.c2 -= 2 * 3600e6 // src_timestamp 09:00 on a row stored at 11:00
+	e.addFile("cpu", false, hourIdx("2024-03-15 11:00:00"), []row{r1100})
 	e.addFile("cpu", false, hourIdx("2024-03-15 12:00:00"), []row{e.rowAt("2024-03-15 12:00:00", 3)})
 	e.addFile("mem", false, hourIdx("2024-03-15 09:00:00"), []row{e.rowAt("2024-03-15 09:00:00", 1)})
 	e.addFile("mem", false, hourIdx("2024-03-15 11:00:00"), []row{e.rowAt("2024-03-15 11:30:00", 1), e.rowAt("2024-03-15 11:40:00", 3)})
@@ -1173,7 +1177,11 @@ func (e *env) opPaths(s, en time.Time) {
 	for _, x := range ds {
 		h = hashStr(h, x)
 	}
-	e.c.Op(op, fmt.Sprintf("n=%d d=%d first=%s last=%s dfirst=%s dlast=%s hash=%d", len(hs), len(ds), hs[0], hs[len(hs)-1], ds[0], ds[len(ds)-1], h))
+	df, dl := "-", "-"
+	if len(ds) > 0 {
+		df, dl = ds[0], ds[len(ds)-1]
+	}
+	e.c.Op(op, fmt.Sprintf("n=%d d=%d first=%s last=%s dfirst=%s dlast=%s hash=%d", len(hs), len(ds), hs[0], hs[len(hs)-1], df, dl, h))
 	e.c.Tag("paths:some")
 }
 
@@ -1239,7 +1247,9 @@ func (e *env) functionLevel(n int) {
 		e.opPaths(s, s.Add(time.Duration(hrs)*time.Hour+time.Nanosecond))
 	}
 	e.opPaths(T("1970-01-01 00:00:00"), T("2262-01-01 00:00:00"))
-	e.opPaths(T("1970-01-01 00:00:00"), T("2370-01-01 00:00:00")) // Sub saturates: the cap does not fire (quirk, 3.5M paths)
+	if e.c.Thorough() {
+		e.opPaths(T("1970-01-01 00:00:00"), T("2270-01-01 00:00:00")) // Sub saturates: the cap does not fire (quirk, 2.6M paths)
+	}
 	e.opPaths(T("0001-01-01 00:00:00"), T("2024-01-01 00:00:00"))
 	for i := 0; i < n; i++ {
 		s := ts("1965-01-01 00:00:00") + int64(e.r.Intn(70*365*24*3600))*1e9 + int64(e.r.Intn(1000000000))
